@@ -245,4 +245,26 @@ CHECKS = {
         'technique': 'Coq proof (invariant by induction over call histories + refinement to a configuration record) + '
                      'exact vm_compute correspondence of every observation after every call',
     },
+    'C14': {
+        'text': 'Machine-checked proof (Properties/C14.v, axiom-free) about the routing of dataset rows '
+                '(Model/Problem.v): an individual\'s measurements for an output are exactly its own rows of the mapped '
+                'observable with time and value present, in row order; dose rows become events that start at the row\'s '
+                'time and deliver the row\'s amount over the given duration (0.01 when missing); IDs are listed once, in '
+                'order of first appearance, as a function of the ID column only; unrelated rows (other individual, other '
+                'observable, missing time / value / dose) change nothing; the whole routing is invariant under any '
+                'rearrangement that keeps the first-appearance order of IDs and each individual\'s own row order. Tied to '
+                '/repo on every run: real ProblemModellingController objects on random datasets; the arguments that reach '
+                'chi.LogLikelihood / chi.HierarchicalLogLikelihood (IDs, (time, value) pairs per output, regimen of the '
+                'model, covariate rows) captured by recording subclasses and compared exactly (vm_compute) with `routed`; '
+                'directly: posterior values, gradients, names and IDs equal a posterior assembled by hand from an '
+                'independent pass over the rows, reported regimens equal the dose rows, and the posterior is unchanged '
+                'by unrelated / missing-value rows, extra columns, the ID data type and grouping rows by individual.',
+        'note': 'Trusted: Coq kernel, stdlib (no axioms); hand-written model; pandas / myokit.Protocol semantics; the '
+                'mechanistic models are recording toy models (with a closed-form dosing term), so the sandbox\'s missing '
+                'solver plays no role; what the likelihood objects do with the routed data is C01 / C02. Per-output times '
+                'are generated in non-decreasing row order because chi.LogLikelihood rejects anything else. One fix: '
+                'commit (single-individual hierarchical posterior).',
+        'technique': 'Coq proof (filter / first-appearance lemmas over row lists) + exact vm_compute correspondence of '
+                     'the captured constructor arguments',
+    },
 }
